@@ -607,7 +607,18 @@ impl<'a> TypeConverter<'a> {
 
                     uses.insert(name.to_string(), used);
                 }
-                _ => {}
+                _ => {
+                    // An alias of a value type that has the same owner
+                    // (`type a = b`): the new name is owned here too, so that
+                    // a `use` of it from another interface is attributed to
+                    // this owner and name (resource aliases are tracked by
+                    // `resource`)
+                    if let wasm::ComponentAnyTypeId::Defined(_) = created {
+                        self.owners
+                            .entry(created)
+                            .or_insert_with(|| (owner, name.to_string()));
+                    }
+                }
             }
             return;
         }
